@@ -53,7 +53,8 @@ DOC = '<r xmlns:p="http://example.com/ns"><a x="1">1<b n="2">x</b></a><p:a>3</p:
 URIS = ['http://sim.test/a.txt', 'http://sim.test/b.json', 'file:///simfs/c.txt', 'https://sim.test/d.json',
         '/simfs/e.json', 'rel/f.txt', 'http://sim.test/a b', 'http://sim.test/\x00x', '/simfs/\x00y.json',
         'http://[bad', 'sim://x/y', 'http://sim.test/g.txt#frag']
-FILE_TEXTS = ['{"a": 1, "b": [1, 2]}', 'line1\nline2\n', 'café €', '[1, 2', '', '﻿bom', 'x' * 300]
+FILE_TEXTS = ['{"a": 1, "b": [1, 2]}', 'line1\nline2\n', 'café €', '[1, 2', '', '﻿bom', 'x' * 300,
+              'café naïve', 'pâté\nöl\n', '{"k": "é"}']
 IO_EXPRS = ['json-doc(%s)', 'json-doc(%s, map{"liberal": true()})', 'unparsed-text(%s)', 'unparsed-text(%s, "utf-8")',
             'unparsed-text(%s, "utf-16")', 'unparsed-text-lines(%s)', 'unparsed-text-available(%s)',
             'unparsed-text-available(%s, "iso-8859-1")', 'count(unparsed-text-lines(%s))',
@@ -173,7 +174,7 @@ def gen_case(rng, tier):
     files = {}
     for u in rng.sample(URIS, rng.randint(2, 6)):
         files[u] = {'text': rng.choice(FILE_TEXTS), 'fault': rng.choice([None, None] + FAULT_KINDS),
-                    'enc': rng.choice(['utf-8', 'utf-8', 'utf-16', 'latin-1'])}
+                    'enc': rng.choice(['utf-8', 'utf-8', 'utf-16', 'latin-1', 'latin-1', 'cp1252', 'utf-16-le'])}
     nops = rng.randint(2, 30 if thorough else 12)
     reclimit = rng.choice([None, None, None, 200, 400])
     ops = []
@@ -242,6 +243,25 @@ def simplify(case):
             ops = list(case['ops'])
             ops[i] = dict(op, lazy=False, vars=False)
             yield dict(case, ops=ops)
+
+
+def diagnose_timeout(case):
+    """Called by the runner when a whole run hit the wall-clock watchdog: every operation is executed alone in a
+    fresh child with a generous limit (inputs are <= 400 characters or one of the fixed deep families; a parse or
+    evaluation of those takes milliseconds). An operation that alone does not finish is a hang inside code that
+    yields no line events (e.g. catastrophic backtracking of a tokenizer pattern)."""
+    from ..world import WORLD
+    viol = []
+    for op in case['ops']:
+        single = {'config': case['config'], 'ops': [dict(op, probes=[])]}
+        st, _res = runner.fork_call(lambda: run_case(single, WORLD), timeout=25.0)
+        if st == 'watchdog':
+            viol.append({'cls': 'HANG', 'signature': 'hang:wall-clock:%s' % op.get('kind', '?'),
+                         'detail': 'operation %s of %r alone does not finish within 25 s of wall-clock time' % (
+                             op['op'], op.get('src', '')[:160]),
+                         'features': ['kind:' + op.get('kind', '?'), 'wall-clock'], 'single_case': single})
+            break
+    return viol
 
 
 def parser_class(v):
